@@ -366,6 +366,7 @@ def valid(sc):
 
 def run(sc) -> RunResult:
     core.import_cspuz()
+    core.fresh_z3_context()
     res = RunResult()
     res.log("start", ID, sc.get("seed"), sc["kind"], sc.get("test"))
     if sc["kind"] == "prng":
